@@ -13,7 +13,7 @@ THR = {'t0': 0, 't1': 1, 'tsmall': 100, 't32k': 2 ** 15}
 ACCESSORS = ['get', 'getitem', 'pop', 'read', 'pull', 'peek', 'peekitem', 'deque-getitem', 'deque-pop', 'index-getitem', 'index-pop',
              'get-unpickled', 'pull-unpickled']
 FEATCH = {'CR': '\r', 'LF': '\n', 'CRLF': '\r\n', 'NUL': '\x00', 'U85': '\x85', 'U2028': ' ', 'astral': '\U0001f600',
-          'surrogate': '\ud800'}
+          'surrogate': '\ud800', 'BOM': '\ufeff'}
 
 
 class Celsius(float):
@@ -89,8 +89,8 @@ def witness(kind, lenclass, feat, thr, rng, disk):
         for ch in chars:
             if n == 0:
                 return None            # cannot carry a feature in an empty text: no witness
-            pos = rng.randrange(n)
-            body[pos] = ch
+            pos = 0 if ch == '\ufeff' else rng.randrange(1 if n == 1 else 1, n) if '\ufeff' in chars and n > 1 else rng.randrange(n)
+            body[pos] = ch             # (a byte-order mark matters at the very start of the text)
         s = ''.join(body)
         # a two-character feature (CRLF) lengthens the text: trim back to the wanted character count when it matters
         if len(s) > n and lenclass in ('below', 'at'):
